@@ -598,6 +598,10 @@ func c12FieldCopy(c *Ctx) {
 				return
 			}
 			g := call.Call.StaticCallee()
+			if g != nil && g.Signature.Recv() != nil && core.FuncClass(g) == core.Product {
+				c12AccessorCopy(c, f, ins, fld, g)
+				return
+			}
 			if g == nil || g.Signature.Recv() == nil || !strings.HasPrefix(g.Name(), "Get") || core.FuncClass(g) != core.Generated {
 				return
 			}
@@ -882,4 +886,47 @@ func be32ByteStores(cx *bounds.Ctx, fn *ssa.Function, val ssa.Value) (string, bo
 		}
 	}
 	return base, true
+}
+
+// c12AccessorCopy: a serializer fills proto field fld from accessor g of a
+// key/parameters type of the module. If that type has an accessor whose name
+// is the field's name (up to the unit suffix: KeySize <- KeySizeInBytes) and g
+// is a different one (KeySize <- DerivedKeySizeInBytes), the serializer writes
+// one quantity where the parser reads another. Nothing is demanded when no
+// accessor carries the field's name.
+func c12AccessorCopy(c *Ctx, f *ssa.Function, ins ssa.Instruction, fld string, g *ssa.Function) {
+	p, r := c.P, c.R
+	norm := func(s string) string {
+		s = strings.ToLower(s)
+		for _, suf := range []string{"inbytes", "inbits", "bytes"} {
+			s = strings.TrimSuffix(s, suf)
+		}
+		return strings.TrimPrefix(s, "get")
+	}
+	want := norm(fld)
+	if norm(g.Name()) == want {
+		r.Ok("C12.fieldcopy", fmt.Sprintf("C12.fieldcopy/%s/%s<-%s", core.FuncID(f), fld, g.Name()), p.Pos(ins.Pos()), "filled from the accessor of the same name")
+		return
+	}
+	recv := g.Signature.Recv().Type()
+	if pt, ok := recv.Underlying().(*types.Pointer); ok {
+		recv = pt.Elem()
+	}
+	named, ok := recv.(*types.Named)
+	if !ok {
+		return
+	}
+	exact := ""
+	for i := 0; i < named.NumMethods(); i++ {
+		m := named.Method(i)
+		sig := m.Type().(*types.Signature)
+		if sig.Params().Len() == 0 && sig.Results().Len() == 1 && norm(m.Name()) == want && m.Name() != g.Name() {
+			exact = m.Name()
+		}
+	}
+	if exact == "" {
+		return
+	}
+	r.Bad("C12.fieldcopy", fmt.Sprintf("C12.fieldcopy/%s/%s<-%s", core.FuncID(f), fld, g.Name()), p.Pos(ins.Pos()),
+		fmt.Sprintf("proto field %s is filled from %s() although %s has the accessor %s(): the serializer writes one quantity where the parser reads another", fld, g.Name(), named.Obj().Name(), exact))
 }
